@@ -72,6 +72,25 @@ type FS struct {
 	OpenHook func(p string, rc io.ReadCloser) (io.ReadCloser, error)
 	// WalkHook, if set, is consulted before each entry is reported.
 	WalkHook func(i int, p string) error
+	// EOFWithData: readers report the final bytes together with io.EOF (allowed by io.Reader;
+	// archive/tar and many network readers do it).
+	EOFWithData bool
+}
+
+type eofReader struct {
+	data []byte
+}
+
+func (r *eofReader) Read(p []byte) (int, error) {
+	if len(r.data) == 0 {
+		return 0, io.EOF
+	}
+	n := copy(p, r.data)
+	r.data = r.data[n:]
+	if len(r.data) == 0 {
+		return n, io.EOF
+	}
+	return n, nil
 }
 
 func New(t fsmodel.Tree) *FS {
@@ -160,6 +179,9 @@ func (f *FS) Open(p string) (io.ReadCloser, error) {
 		return nil, &os.PathError{Op: "open", Path: p, Err: os.ErrInvalid}
 	}
 	var rc io.ReadCloser = io.NopCloser(bytes.NewReader(n.Data))
+	if f.EOFWithData {
+		rc = io.NopCloser(&eofReader{data: n.Data})
+	}
 	if f.OpenHook != nil {
 		return f.OpenHook(p, rc)
 	}
